@@ -9,9 +9,31 @@ compiled code by tie A (`codec.urun`).
 -/
 namespace Oas3.Codec
 
+/-! a canonical text of a JSON value (used to compare what a `serde_json::Value` variant gives back) -/
+mutual
+def J.key : J → List Char
+  | .null => ['n']
+  | .bool b => if b then ['t'] else ['f']
+  | .num m e => 'd' :: showInt m ++ 'e' :: showNat e
+  | .str s => 's' :: showNat s.length ++ ':' :: s
+  | .arr xs => '[' :: keyList xs ++ [']']
+  | .obj kvs => '{' :: keyKvs kvs ++ ['}']
+def keyList : List J → List Char
+  | [] => []
+  | x :: r => x.key ++ ',' :: keyList r
+def keyKvs : List (Str × J) → List Char
+  | [] => []
+  | (k, v) :: r => showNat k.length ++ ':' :: k ++ v.key ++ ',' :: keyKvs r
+end
+
+def J.isObj : J → Bool
+  | .obj _ => true
+  | _ => false
+
 def rtVar : UVar → J → Option J
   | .unit _, j => if j.isNull then some .null else none
   | .newtype t, j => rt t j
+  | .value, j => some j                  -- `serde_json::Value` reads and writes every JSON value as it is
 
 /-- decode with the derived untagged `Deserialize` (first variant that accepts), encode with the derived `Serialize` -/
 def rtU : List UVar → J → Option J
@@ -24,11 +46,16 @@ def validAlt (lenient : Bool) : Alt → J → Bool
   | .const v, j => j.scalarEq (.str v)
   | .null, j => j.isNull
   | .sch s, j => valid lenient s j
+  | .free .obj, j => j.isObj
+  | .free .objNull, j => j.isObj || j.isNull
+  | .free .objClosed, j => match j with | .obj kvs => kvs.isEmpty | _ => false
+  | .free .any, _ => true
 
 def sameAlt : Alt → J → J → Bool
   | .const _, a, b => a.scalarEq b
   | .null, a, b => a.isNull && b.isNull
   | .sch s, a, b => same s a b
+  | .free _, a, b => a.key == b.key
 
 def matchCount (lenient : Bool) (alts : List Alt) (j : J) : Nat := (alts.filter (fun a => validAlt lenient a j)).length
 
@@ -64,6 +91,7 @@ inductive KnownU
   | unionShadowed          -- an earlier variant accepts a document that a later alternative describes more fully
   | oneOfOutAmbiguous      -- `oneOf`: the re-encoded document is valid against more than one alternative
   | relaxedDropsAlternatives  -- `anyOf` turned into Known/Other: alternatives that are not strings have no variant
+  | valueVariantAcceptsAnything  -- a free-form object alternative is a `serde_json::Value` variant: it accepts every JSON value
   deriving DecidableEq, Repr
 
 def KnownU.name : KnownU → String
@@ -72,6 +100,7 @@ def KnownU.name : KnownU → String
   | .unionShadowed => "KnownUnionShadowed"
   | .oneOfOutAmbiguous => "KnownOneOfOutAmbiguous"
   | .relaxedDropsAlternatives => "KnownRelaxedDropsAlternatives"
+  | .valueVariantAcceptsAnything => "KnownValueVariantAcceptsAnything"
 
 /-- index of the first variant that accepts the document -/
 def firstAccept : List UVar → J → Nat → Option Nat
@@ -96,6 +125,7 @@ def classesU (fname : Str → Str) (vname : J → Str) (oneOf : Bool) (alts : Li
    | _ => []) ++
   (if doc.isNull && alts.any Alt.isNullAlt then [KnownU.unionNullDropped] else []) ++
   (if (altVariantIdx alts 0).any (fun p => validAlt false p.1 doc && p.2.isSome && fa.isSome && p.2 != fa) then [KnownU.unionShadowed] else []) ++
+  (if alts.any (fun a => match a with | .free _ => true | _ => false) && !alts.any (fun a => validAlt true a doc) then [KnownU.valueVariantAcceptsAnything] else []) ++
   (match oneOf, rtRoot (unionRoot fname vname alts) doc with
    | true, some out => if matchCount false alts doc == 1 && decide (2 ≤ matchCount false alts out) then [KnownU.oneOfOutAmbiguous] else []
    | _, _ => [])
